@@ -53,6 +53,16 @@ impl<R: Read + Skip + ?Sized> ChunkReader<R> {
         Ok(!self.inner.fill_buf()?.is_empty())
     }
 
+    /// Ensure the reader has not been moved past the end of the input, which a seek-based [`Skip`] permits.
+    pub fn ensure_within_input(&mut self) -> Result<(), Error> {
+        ensure_attach!(
+            self.inner.stream_position()? <= self.inner.stream_len()?,
+            ParseError::TruncatedChunk,
+            WhileParsingChunk(self.current_chunk_name()),
+        );
+        Ok(())
+    }
+
     /// Read a chunk header, also saving it to be returned by [`read_header`](Self::read_header) later.
     pub fn peek_header(&mut self) -> Result<Option<FourCC>, Error> {
         let header = match self.read_padding()? {
